@@ -438,11 +438,13 @@ def rule_r028(ck, prog):
                           "(could move before the token start) [%s]" % (p, b.where(i)))
                 # and the caller consumed the first character before: callers reach us after Scanner::eat
     # loops in lexer/preprocessor: each cycle calls a consuming scanner/stream method, or exits on Eof
-    for p in ("syntax::preprocessor::PreProcessor::<T>::eat_until_else_or_endif",
-              "syntax::preprocessor::PreProcessor::<T>::next_not_trivia",
-              "syntax::lexer::Lexer::<'a>::string"):
+    # every hand-written loop of the lexer and the preprocessor, whatever the function is called
+    looping = sorted(p for p, b in prog.bodies.items()
+                     if (p.startswith("syntax::preprocessor::PreProcessor") or p.startswith("syntax::lexer::Lexer"))
+                     and not b.parent and cfg.loops(b))
+    ck.floor("R02.8", "functions with loops in lexer/preprocessor", len(looping), 3)
+    for p in looping:
         b = prog.body(p)
-        ck.anchor(b is not None, p + " not found")
         for h, body_blocks in cfg.loops(b):
             consuming = {i for i, t in b.calls() if i in body_blocks and (
                 (t["f"].get("decl") or "") == TS + "eat" or Body.callee(t) == "unscanny::Scanner::<'a>::eat")}
